@@ -562,6 +562,13 @@ func checkC19(P *Program, r *Result, tier string) {
 				ta, _ = recv.(*ssa.TypeAssert)
 			}
 			wrapped := ta != nil && isWrappedValue(fn, ta.X, handedOff)
+			// or the assertion was made once, when the transport was built, and kept in a field of its own
+			cachedField := -1
+			if ta == nil && !handedOff {
+				if fi, ok := recvStructField(fn, recv); ok && cachedAssertion(P, fn, fi) {
+					wrapped, cachedField = true, fi
+				}
+			}
 			r.add("REMAINING", shortName(fn), "source", "ReadableLen is asked of the wrapped object itself, looked up at the time of the call", P.pos(instrPos(nVal.(*ssa.Call))), wrapped, "")
 			for _, ret := range returnsOf(fn) {
 				v := ret.Results[0]
@@ -584,6 +591,27 @@ func checkC19(P *Program, r *Result, tier string) {
 						if touches {
 							facts := append(append([]*Lin{}, g.ineq...), ef.ineq...)
 							if !entails(fa.closeFacts(facts, nil, nil, ineqLE(n, linConst(0))), ineqLE(n, linConst(0))) {
+								edgesOK = false
+							}
+						} else if cachedField >= 0 {
+							// the other way to "unknown": nothing was cached because the wrapped object has no ReadableLen
+							q := p
+							for len(q.Succs) == 1 && len(q.Preds) == 1 && len(q.Instrs) == 1 {
+								q = q.Preds[0]
+							}
+							okEdge := false
+							if iff, isIf := q.Instrs[len(q.Instrs)-1].(*ssa.If); isIf {
+								if bo, isBo := iff.Cond.(*ssa.BinOp); isBo && (bo.Op == token.NEQ || bo.Op == token.EQL) {
+									for _, pair := range [][2]ssa.Value{{bo.X, bo.Y}, {bo.Y, bo.X}} {
+										if c, isC := pair[1].(*ssa.Const); isC && c.Value == nil {
+											if fi, ok := recvStructField(fn, pair[0]); ok && fi == cachedField {
+												okEdge = true
+											}
+										}
+									}
+								}
+							}
+							if !okEdge {
 								edgesOK = false
 							}
 						} else if ta != nil && ta.CommaOk {
@@ -1196,7 +1224,22 @@ func isWrappedValue(fn *ssa.Function, v ssa.Value, handedOff bool) bool {
 			st = p.Elem()
 		}
 		s, ok := st.Underlying().(*types.Struct)
-		return ok && i < s.NumFields() && s.Field(i).Embedded() && types.IsInterface(s.Field(i).Type())
+		if !ok || i >= s.NumFields() || !types.IsInterface(s.Field(i).Type()) {
+			return false
+		}
+		// the embedded interface, or — when the type embeds none — the field that holds an io.ReadWriter
+		if s.Field(i).Embedded() {
+			return true
+		}
+		for k := 0; k < s.NumFields(); k++ {
+			if s.Field(k).Embedded() && types.IsInterface(s.Field(k).Type()) {
+				return false
+			}
+		}
+		if n, ok := s.Field(i).Type().(*types.Named); ok && n.Obj().Pkg() != nil {
+			return n.Obj().Pkg().Path() == "io" && n.Obj().Name() == "ReadWriter"
+		}
+		return false
 	}
 	switch x := v.(type) {
 	case *ssa.Field:
@@ -1222,4 +1265,95 @@ func isWrappedValue(fn *ssa.Function, v ssa.Value, handedOff bool) bool {
 		}
 	}
 	return false
+}
+
+// recvStructField: v is field number fi read from the (value or pointer) receiver of fn.
+func recvStructField(fn *ssa.Function, v ssa.Value) (int, bool) {
+	if len(fn.Params) == 0 {
+		return 0, false
+	}
+	fromRecv := func(x ssa.Value) bool {
+		if x == ssa.Value(fn.Params[0]) {
+			return true
+		}
+		if al, ok := x.(*ssa.Alloc); ok {
+			return spilledParam(al) == fn.Params[0]
+		}
+		return false
+	}
+	switch x := v.(type) {
+	case *ssa.Field:
+		if fromRecv(x.X) {
+			return x.Field, true
+		}
+	case *ssa.UnOp:
+		if fa, ok := x.X.(*ssa.FieldAddr); ok && x.Op == token.MUL && fromRecv(fa.X) {
+			return fa.Field, true
+		}
+	}
+	return 0, false
+}
+
+// cachedAssertion: field fi of fn's receiver type is only ever set — in the same
+// block as the embedded interface field of the same object, hence whenever that
+// one is set — to the comma-ok type assertion of the very value stored there.
+func cachedAssertion(P *Program, fn *ssa.Function, fi int) bool {
+	rt := fn.Params[0].Type()
+	if p, ok := rt.Underlying().(*types.Pointer); ok {
+		rt = p.Elem()
+	}
+	st, ok := rt.Underlying().(*types.Struct)
+	if !ok {
+		return false
+	}
+	emb := -1
+	for i := 0; i < st.NumFields(); i++ {
+		if st.Field(i).Embedded() && types.IsInterface(st.Field(i).Type()) {
+			emb = i
+		}
+	}
+	if emb < 0 || emb == fi {
+		return false
+	}
+	n := 0
+	for _, f := range repoFuncs(P) {
+		for _, b := range f.Blocks {
+			for _, in := range b.Instrs {
+				s, ok := in.(*ssa.Store)
+				if !ok {
+					continue
+				}
+				fa, ok := s.Addr.(*ssa.FieldAddr)
+				if !ok || fa.Field != fi {
+					continue
+				}
+				pt, ok := fa.X.Type().Underlying().(*types.Pointer)
+				if !ok || !types.Identical(pt.Elem(), rt) {
+					continue
+				}
+				n++
+				ex, ok := s.Val.(*ssa.Extract)
+				if !ok || ex.Index != 0 {
+					return false
+				}
+				ta, ok := ex.Tuple.(*ssa.TypeAssert)
+				if !ok || !ta.CommaOk {
+					return false
+				}
+				// the embedded field of the same object gets the asserted value, in this block
+				same := false
+				for _, in2 := range b.Instrs {
+					if s2, ok := in2.(*ssa.Store); ok {
+						if fa2, ok := s2.Addr.(*ssa.FieldAddr); ok && fa2.X == fa.X && fa2.Field == emb && s2.Val == ta.X {
+							same = true
+						}
+					}
+				}
+				if !same {
+					return false
+				}
+			}
+		}
+	}
+	return n > 0
 }
